@@ -620,3 +620,8 @@ def emit_program(case, obs):
     return ("{| p_dev := %s; p_max := %s; p_autosplit := %s; p_diti := %s; p_lw := %s; p_ops := %s; p_final := %s |}"
             % (dev, cq(Fraction(case["wl"]["max_volume"])), cbool(case["wl"]["auto_split"]), cbool(case["wl"]["diti_mode"]),
                clist([e_lwspec(s) for s in case["labware"]]), clist(steps), final))
+
+
+def rounding_guard_transfers(wl, lws):
+    """to_worklist only issues integer or dyadic volumes against dyadic max_volume: float ceil is exact"""
+    return False
